@@ -103,7 +103,14 @@ def rule_ansi(facts, rep):
     for fn, code in (("as_fg_str", sgr.fg_code), ("as_bg_str", sgr.bg_code)):
         b = facts.body("anstyle", C + "AnsiColor::" + fn)
         rep.fn(b["path"])
-        t = ac.variant_table(ac.single_expr(b["hir"]), ac.ANSI, hir.lit_val)
+        # the table by evaluation: the function's value for each of the sixteen colours (a match, a const table indexed by the
+        # palette code, ... all evaluate the same)
+        import abseval
+        ev = abseval.Evaluator(facts, "anstyle", {})
+        t = {}
+        for n in sgr.ANSI16:
+            v = ev.call_fn("anstyle", b["path"], [("enum", ac.ANSI + "::" + n)])
+            t[n] = v[1] if v[0] == "str" else v
         bad = {n: t.get(n) for n in sgr.ANSI16 if t.get(n) != "\x1b[" + code(n) + "m"}
         rep.check(not bad and len(t) == 16, "ansi", b["path"], "16-cells",
                   f"every colour must render ESC[{'3n/9n' if fn == 'as_fg_str' else '4n/10n'}m with n its hue index; wrong cells: {bad}", loc(b))
